@@ -36,6 +36,8 @@ def loads(kind: str):
             v = [0.0] * 8760
             for h in range(loadgen.month_start_hour(11), 8760):
                 v[h] = 9000.0  # extraction in December only: the coldest fluid is the last step of the horizon
+        elif kind == "one_borehole":
+            v = base(0.09)  # one borehole of ~100 m carries it: the smallest field meets the limits between the height bounds
         elif kind == "negligible":
             v = [x * 1e-3 for x in base(0.6)]
         elif kind == "too_large":
